@@ -169,6 +169,16 @@ func runAllocs(out *bufio.Writer, st *Stats, r *Rng, tier string) {
 					next := 0
 					measure(out, st, "appendInPlace", det+"/overlapping-source", func() { dsts[next].Append(ovSrc); next++ })
 				}
+				// a buffer appended to itself within its capacity: a fresh header per run (each append doubles it)
+				{
+					selfParent := Alloc(k, false, signal.Allocator{Channels: ch, Length: 4, Capacity: 4})
+					selfs := make([]DynBuf, allocRuns+2)
+					for i := range selfs {
+						selfs[i] = selfParent.Slice(0, 2)
+					}
+					nextS := 0
+					measure(out, st, "appendInPlace", det+"/self", func() { selfs[nextS].Append(selfs[nextS]); nextS++ })
+				}
 				win2 := b.Slice(0, b.Capacity()).Slice(1, 2) // spare capacity for allocRuns+1 more frames
 				measure(out, st, "appendInPlace", det+"/window", func() { win2.Append(one) })
 				// pool get/put cycle
